@@ -268,6 +268,27 @@ fn check_case(check: &Check, case: &Case, origin: &str) -> CaseResult {
         if dst.exists() {
             vfail!("list-only-wrote-target", "list_only rebuild created the target file");
         }
+        // a dry run announces what the real run does: the same options without list_only must report the same counts
+        let dst3 = dir.path().join("real-run.mpq");
+        let mut o3 = to_opts(o);
+        o3.list_only = false;
+        o3.verify = false;
+        if let Ok(Ok(real)) = engine::guard("rebuild_archive(real run of a dry run)", || rebuild_archive(&src, &dst3, o3, None)) {
+            check.bump("dry_run_compared_with_real_run", 1);
+            if (summary.source_files, summary.extracted_files, summary.skipped_files) != (real.source_files, real.extracted_files, real.skipped_files) {
+                vfail!(
+                    "dry-run-summary-differs-from-real-run",
+                    "list_only reports source/extracted/skipped = {}/{}/{}, the same options without list_only report {}/{}/{} — opts {o:?} — {}",
+                    summary.source_files,
+                    summary.extracted_files,
+                    summary.skipped_files,
+                    real.source_files,
+                    real.extracted_files,
+                    real.skipped_files,
+                    spec.summary()
+                );
+            }
+        }
         return Ok(());
     }
     if !spec.listfile {
